@@ -328,5 +328,5 @@ def run_shard(spec) -> Acc:
 
 
 def plan(tier, seed):
-    n = 200 if tier == "quick" else 6000
+    n = 300 if tier == "quick" else 6000
     return [{"part": "tables"}] + [{"part": "roundtrip", "shard": i, "n": n} for i in range(15)]
